@@ -1,20 +1,21 @@
 #!/usr/bin/env python3
 """Re-run every claimed check against every archived seeded change (scratch copy + patch) and record the
-current verdicts in meta.json under 'checks_now' / 'caught_by_now'.  Development tool."""
+current verdicts in meta.json under 'checks_now' / 'caught_by_now'.  Development tool (8 seeds in parallel)."""
 import json, os, shutil, subprocess, sys, glob, tempfile
+from concurrent.futures import ThreadPoolExecutor
 sys.path.insert(0, '/verif')
 from jstat.selftest.run import copy_tree
 claimed = [c["property_id"] for c in json.load(open('/verif/MANIFEST.json'))["checks"]]
-for d in sorted(glob.glob('/verif/seeded/*-*')):
-    if sys.argv[1:] and os.path.basename(d) not in sys.argv[1:]:
-        continue
+
+
+def one(d):
     meta = json.load(open(d + '/meta.json'))
     tmp = tempfile.mkdtemp(prefix='jstat_seed_')
     try:
         copy_tree(tmp)
         r = subprocess.run(['patch', '-p1', '-s', '-d', tmp], stdin=open(d + '/patch.diff'), capture_output=True, text=True)
         if r.returncode != 0:
-            print(os.path.basename(d), 'patch failed', r.stdout[-200:]); continue
+            return os.path.basename(d) + ' patch failed ' + r.stdout[-200:]
         env = dict(os.environ, JSTAT_REPO=tmp, JSTAT_EVIDENCE_DIR=tmp + '/ev', PYTHONPATH='/verif', JSTAT_REPO_IS_VARIANT='1')
         out = {}
         for c in claimed:
@@ -24,6 +25,12 @@ for d in sorted(glob.glob('/verif/seeded/*-*')):
         meta['caught_by_now'] = [c for c, v in out.items() if v['exit'] == 1]
         meta['analysis_error_now'] = [c for c, v in out.items() if v['exit'] == 2]
         json.dump(meta, open(d + '/meta.json', 'w'), indent=1)
-        print(os.path.basename(d), 'confirmed' if meta.get('confirmed') else 'unconfirmed', 'caught_by', meta['caught_by_now'], 'err', meta['analysis_error_now'])
+        return f"{os.path.basename(d)} {'confirmed' if meta.get('confirmed') else 'unconfirmed'} caught_by {meta['caught_by_now']} err {meta['analysis_error_now']}"
     finally:
         shutil.rmtree(tmp, ignore_errors=True)
+
+
+dirs = [d for d in sorted(glob.glob('/verif/seeded/C*-*')) if not sys.argv[1:] or os.path.basename(d) in sys.argv[1:]]
+with ThreadPoolExecutor(8) as ex:
+    for line in ex.map(one, dirs):
+        print(line, flush=True)
